@@ -26,14 +26,16 @@ Fixpoint value_eqb (a b : value) : bool :=
 Inductive gcase :=
 | GSer (cls : string) (v : value) (san : bool) (exp : res unit * list Z * bool)        (* outcome, bytes written, final mode *)
 | GDeser (cls : string) (data : list Z) (chunked : bool) (exp : res value * Z * bool)  (* outcome, final position, final mode *)
-| GRound (cls : string) (v : value) (exp : res value).                                 (* serialize (fresh writer) then deserialize *)
+| GRound (cls : string) (v : value) (exp : res value)                                  (* serialize (fresh writer) then deserialize *)
+| GPacket (cls : string) (family action : Z).                                           (* what Cls.family() / Cls.action() return *)
 
 Definition run_ser (E : env) (cls : string) (v : value) (san : bool) : res unit * list Z * bool :=
   let '(w, r) := serialize E cls v san in (r, wdata w, wsan w).
 Definition run_deser (E : env) (cls : string) (data : list Z) (chunked : bool) : res value * Z * bool :=
   let '(r, v) := deserialize E cls data chunked in (v, rpos r, rchunked r).
 
-Definition gcase_ok (E : env) (c : gcase) : bool :=
+Definition gcase_ok (p : pkg) (c : gcase) : bool :=
+  let E := pk_env p in
   match c with
   | GSer cls v san (er, ed, em) =>
     let '(r, d, m) := run_ser E cls v san in res_eqb unit_eqb r er && list_eqb d ed && Bool.eqb m em
@@ -45,13 +47,15 @@ Definition gcase_ok (E : env) (c : gcase) : bool :=
     | Err e => res_eqb value_eqb (Err e) ev
     | Ok _ => let '(v', _, _) := run_deser E cls d false in res_eqb value_eqb v' ev
     end
+  | GPacket cls fam act =>
+    existsb (fun k => String.eqb (pp_cls k) cls && (pp_family k =? fam) && (pp_action k =? act)) (pk_packets p)
   end.
 
 (* -> [] when everything agrees; [-1] when accept/reject differs; else the indices of the disagreeing cases *)
 Definition tree_failing (files : list rfile) (accepted : bool) (cases : list gcase) : list Z :=
   match elab files with
   | Err _ => if accepted then [-1] else []
-  | Ok p => if accepted then failing (gcase_ok (pk_env p)) cases 0 else [-1]
+  | Ok p => if accepted then failing (gcase_ok p) cases 0 else [-1]
   end.
 
 (* what the model computes, for diagnosing a disagreement *)
@@ -62,5 +66,6 @@ Definition tree_show (files : list rfile) (c : gcase) :=
                   | GSer cls v san _ => (Some (run_ser (pk_env p) cls v san), None)
                   | GDeser cls d ch _ => (None, Some (run_deser (pk_env p) cls d ch))
                   | GRound cls v _ => (Some (run_ser (pk_env p) cls v false), None)
+                  | GPacket _ _ _ => (None, None)
                   end)
   end.
